@@ -734,16 +734,17 @@ class Interp:
             a = SInt(z3.If(a.t, 1, 0))
         if isinstance(b, SBool):
             b = SInt(z3.If(b.t, 1, 0))
+        if isinstance(a, Opaque) or isinstance(b, Opaque):
+            # an operator of an opaque object: the interface's method, when it describes one
+            dunder = {ast.Add: 'add', ast.Sub: 'sub', ast.Mult: 'mul', ast.Mod: 'mod', ast.Div: 'truediv',
+                      ast.FloorDiv: 'floordiv', ast.BitOr: 'or', ast.BitAnd: 'and'}.get(opcls)
+            if dunder and isinstance(a, Opaque) and self.reg.opaque_has(self, a, '__%s__' % dunder):
+                return self.reg.call_opaque(self, a, '__%s__' % dunder, [b], {})
+            if dunder and isinstance(b, Opaque) and self.reg.opaque_has(self, b, '__r%s__' % dunder):
+                return self.reg.call_opaque(self, b, '__r%s__' % dunder, [a], {})
+            raise Unsupported('binary operator on opaque object')
         sa, sb = isinstance(a, Sym), isinstance(b, Sym)
         if not sa and not sb:
-            if isinstance(a, Opaque) or isinstance(b, Opaque):
-                dunder = {ast.Add: 'add', ast.Sub: 'sub', ast.Mult: 'mul', ast.Mod: 'mod', ast.Div: 'truediv',
-                          ast.FloorDiv: 'floordiv', ast.BitOr: 'or', ast.BitAnd: 'and'}.get(opcls)
-                if dunder and isinstance(a, Opaque) and self.reg.opaque_has(self, a, '__%s__' % dunder):
-                    return self.reg.call_opaque(self, a, '__%s__' % dunder, [b], {})
-                if dunder and isinstance(b, Opaque) and self.reg.opaque_has(self, b, '__r%s__' % dunder):
-                    return self.reg.call_opaque(self, b, '__r%s__' % dunder, [a], {})
-                raise Unsupported('binary operator on opaque object')
             if opcls is ast.Mod and isinstance(a, str) and contains_sym(b):
                 return SStr(self.st.fresh_str('fmt'))
             if opcls is ast.Add and isinstance(a, (list, tuple)) and type(a) is type(b):
@@ -891,6 +892,9 @@ class Interp:
             if a is None or b is None or ka != kb:
                 raise PyRaise(TypeError('ordering comparison not supported between these types'))
             raise Unsupported('ordering comparison on %s' % ka)
+        if isinstance(a, Opaque) and isinstance(b, Opaque) and getattr(a._pv_iface, 'sort_key', None) \
+                and getattr(b._pv_iface, 'sort_key', None):
+            return self.compare(opcls, self.getattr(a, a._pv_iface.sort_key), self.getattr(b, b._pv_iface.sort_key))
         if isinstance(a, Opaque) or isinstance(b, Opaque):
             raise Unsupported('ordering on opaque')
         try:
@@ -924,6 +928,12 @@ class Interp:
             if _kind(a) != _kind(b):
                 return False
             raise Unsupported("'is' on symbolic int/str")
+        if a is not b and isinstance(a, Opaque) and isinstance(b, Opaque) and a._pv_uid == b._pv_uid \
+                and a._pv_index and len(a._pv_index) == len(b._pv_index) \
+                and all(x.sort() == y.sort() for x, y in zip(a._pv_index, b._pv_index)):
+            # two views of the elements of one symbolic family (list elements, results of a pure method):
+            # the same object iff the indices are equal (distinct indices: distinct objects, DESIGN 2.5)
+            return wrap(z3.And(*[x == y for x, y in zip(a._pv_index, b._pv_index)]))
         return a is b
 
     def not_(self, v):
